@@ -12,6 +12,20 @@ use crate::run::*;
 use crate::work::Shard;
 use griddle::verif::Location;
 
+/// A call that adds the (absent) key `k`: mostly `insert`, but every key-adding call has to
+/// behave the same way (work per call, progress of the resize, headroom), so the directed
+/// builders rotate through them.
+pub fn add_op(k: u64, v: u64) -> Op {
+    match mix(k ^ 0x1e57) % 12 {
+        0 => Op::k(Code::Entry, k).with_list(vec![E_OR_INSERT, v]),
+        1 => Op::k(Code::Entry, k).with_list(vec![E_MATCH, 0, V_INSERT, v]),
+        2 => Op::k(Code::Entry, k).with_list(vec![E_INSERT, v]),
+        3 => Op::k(Code::RawEntryMut, k).with_list(vec![RE_OR_INSERT, v]),
+        4 => Op::k(Code::RawEntryMut, k).with_list(vec![RE_MATCH, 0, RV_INSERT, v]),
+        _ => Op::kv(Code::Insert, k, v),
+    }
+}
+
 /// A monitor plus the log of concrete ops applied to it.
 pub struct Sess<K: El, V: El> {
     pub mon: Mon<K, V>,
@@ -43,7 +57,7 @@ impl<K: El, V: El> Sess<K, V> {
     }
     pub fn insert_new(&mut self, next: &mut u64) -> bool {
         *next += 1;
-        self.go(Op::kv(Code::Insert, *next, *next))
+        self.go(add_op(*next, *next))
     }
     /// Insert fresh keys until the next new key must grow the table.
     pub fn fill_to_full(&mut self, next: &mut u64, limit: usize) -> bool {
@@ -97,7 +111,7 @@ fn ladder_one<K: El, V: El>(cfg: &Cfg, rng: &mut Rng, target: usize, churn: bool
     while s.mon.model.len() < target && s.ok() {
         let k = mix(next) >> 16;
         next += 1;
-        if !s.go(Op::kv(Code::Insert, k, next)) {
+        if !s.go(add_op(k, next)) {
             break;
         }
         let split = s.mon.state().old.is_some();
@@ -121,7 +135,7 @@ fn ladder_one<K: El, V: El>(cfg: &Cfg, rng: &mut Rng, target: usize, churn: bool
         extra += 1;
         let k = mix(next) >> 16;
         next += 1;
-        s.go(Op::kv(Code::Insert, k, next));
+        s.go(add_op(k, next));
     }
     s.finish()
 }
